@@ -23,7 +23,7 @@ LEVEL_NOTE = ("proof (partial): the handle-level timer machine refines the singl
               "wall-clock resolution and float time are not modelled")
 ASSUMPTIONS = ["asyncio's call_later fires a non-cancelled handle at its deadline and never before (event-loop contract)",
                "a unit arriving exactly at a deadline is scheduler dependent and excluded (exploratory stream only)"]
-TIMEOUTS = [1, 2, 5, 60, None]
+TIMEOUTS = [1, 2, 5, 60, None, 1, 5, 60, None, 90000, 259200]     # (also more than one day)
 
 
 def tev_hex(e):
@@ -177,6 +177,10 @@ def run_timed(stream, hs, ctx, in_oracle=True, conn_cls=None):
                            for h in c.loop.live())
             if mlive != ilive:
                 stream.disagree(case, "live timers %s" % ilive, "live timers %s" % mlive)
+        errs = getattr(c.loop, "callback_errors", [])
+        if in_oracle and errs:
+            stream.fail(dict(case, error=errs[0][1]), "the timer callback due at %s raised %s" % (errs[0][0], errs[0][1][:80]),
+                        signature="%s/timer-callback-raises" % stream.name)
         if in_oracle and len(c.loop.live()) > 1:
             stream.fail(case, "more than one live timer handle: %s" % [h.when() for h in c.loop.live()],
                         signature="%s/several-live-timers" % stream.name)
